@@ -201,6 +201,115 @@ def builtin_tables(ctx, rep, prop="C05"):
     rep.check(okm, "C", "%s|C|collect_item_keys|entry" % prop, cfg.where(fck), "each registered entry must be (tree.get_key(), tree.item.get_kind()); extracted %r" % (det,), sample={"entry": det})
 
 
+def atom_of(l):
+    """known atoms of the name-matching predicates: EQ, SUF, DOT (possibly negated) or None"""
+    neg = False
+    while isinstance(l, tuple) and l and l[0] == "not":
+        neg = not neg
+        l = l[1]
+    a = None
+    if isinstance(l, tuple) and l[0] in ("eq", "ne") and set([l[1], l[2]]) == set(["CAP:type_.name", "ELEM"]):
+        a = "EQ"
+        if l[0] == "ne":
+            neg = not neg
+    elif isinstance(l, tuple) and l[0] == "call" and l[1].endswith("::ends_with") and len(l[2]) == 2 and l[2][0] == "ELEM" \
+            and l[2][1] == ("fmt", ".{}", (("fmtarg", "display", "CAP:type_.name"),)):
+        a = "SUF"
+    elif isinstance(l, tuple) and l[0] == "call" and l[1].endswith("::contains") and len(l[2]) == 2 and l[2][0] == "ELEM" and l[2][1] in (("const", "int", 46), ("const", "char", "."), ("const", "str", ".")):
+        a = "DOT"
+    return (a, neg) if a else None
+
+
+def predicate_table(facts, clo):
+    """truth table {valuation tuple over (EQ,SUF,DOT): bool} of a matching closure, or an error string"""
+    import itertools
+    from closures import run_closure
+    cf = facts.fns[clo]
+    caps = {}
+    for c in cf["captures"]:
+        nm = c["name"].lstrip("*")
+        caps[nm] = Opaque("CAP:" + nm)
+    try:
+        ps, _ = run_closure(facts, clo, caps, [Ref(Cell(Ref(Cell(Opaque("ELEM", "std::string::String")))))],
+                            pure_fns=["rules::aidl::core::str::<impl str>::ends_with", "rules::aidl::core::str::<impl str>::contains", "std::str::<impl str>::ends_with", "std::str::<impl str>::contains"])
+    except (Unsupported, KeyError) as e:
+        return "not analysable: %s" % e
+    rows = []
+    for p in ps:
+        if p.effects or p.exit != "return":
+            return "the predicate has effects / does not return: %r" % ([fmt_label(e[1:3]) for e in p.effects],)
+        conds = []
+        for l, v in p.conds:
+            a = atom_of(l)
+            if a is None:
+                return "the predicate branches on %s, which is none of: name == element, element.ends_with('.' + name), element.contains('.')" % fmt_label(l)
+            conds.append((a[0], (not v) if a[1] else v))
+        r = deref_val(p.ret)
+        if isinstance(r, Const) and r.kind == "bool":
+            out = r.v
+        else:
+            a = atom_of(lab(r))
+            if a is None:
+                return "the predicate returns %s, which is none of the known atoms" % fmt_label(lab(r))
+            out = a
+        rows.append((conds, out))
+    table = {}
+    for val in itertools.product((False, True), repeat=3):
+        env = dict(zip(("EQ", "SUF", "DOT"), val))
+        hit = [o for c, o in rows if all(env[a] == v for a, v in c)]
+        if len(hit) != 1:
+            return "ambiguous paths for %r" % (env,)
+        o = hit[0]
+        table[val] = o if isinstance(o, bool) else (env[o[0]] != o[1])
+    return table
+
+
+def matching_rules(ctx, rep, prop="C05"):
+    """rule E: the two searches of resolve_type use the name-matching predicates the statement gives"""
+    import itertools
+    facts = ctx.mir
+    fn = facts.fn(RT)
+    body = fn["body"]
+    import c11
+    found = {}
+    for b in body["blocks"]:
+        t = b["term"]
+        if b["cleanup"] or t["k"] != "call":
+            continue
+        ci = callee_info_(t)
+        if not ci:
+            continue
+        name = (ci.get("resolved") or ci["def"])
+        meth = name.rsplit("::", 1)[1]
+        a0 = (ci.get("args") or [""])[0]
+        if meth in ("filter", "find", "position", "any", "find_map") and "hash_set::Iter" in a0 and len(t["args"]) == 2:
+            clo = c11.closure_of_arg(facts, fn, t, 1)
+            if clo:
+                found.setdefault(clo, (meth, t))
+    rep.floor("E", "name-matching predicates in resolve_type", len(found), 2)
+    specs = {"import": lambda EQ, SUF, DOT: EQ or SUF, "forward declaration": lambda EQ, SUF, DOT: EQ and not DOT}
+    seen = set()
+    for clo, (meth, t) in sorted(found.items()):
+        tb = predicate_table(facts, clo)
+        if isinstance(tb, str):
+            rep.fail("E", "%s|E|%s|shape" % (prop, clo), cfg.where(fn, t), "name-matching predicate %s: %s (the rule knows the idioms built from these three tests only; anything else must be read)" % (clo, tb))
+            continue
+        which = [k for k, f in specs.items() if all(tb[v] == bool(f(*v)) for v in tb)]
+        seen |= set(which)
+        rep.check(len(which) == 1, "E", "%s|E|%s" % (prop, clo), cfg.where(fn, t),
+                  "the name-matching predicate %s must be either `name == import || import.ends_with('.' + name)` (imports: exact or dot-bounded suffix match, so XFoo never matches Foo) or "
+                  "`name == declaration && !declaration.contains('.')` (unqualified forward declarations); its truth table over (equal, dot-suffix, contains-dot) is %r" % (
+                      clo, dict((str(k), v) for k, v in sorted(tb.items()))),
+                  witness="import q.MyFoo; ... Foo x;  // `Foo` must not resolve through `q.MyFoo`" if not which else None,
+                  sample={"closure": clo, "predicate": which})
+    rep.check(seen == set(specs), "E", "%s|E|both-searches" % prop, cfg.where(fn), "resolve_type must search the imports with the import predicate and the forward declarations with theirs; found %r" % (sorted(seen),))
+
+
+def callee_info_(t):
+    from mirlib import callee_info
+    return callee_info(t)
+
+
 def callee_name(t):
     from mirlib import callee_info
     ci = callee_info(t)
@@ -236,7 +345,9 @@ def run(ctx, rep):
     rep.check(len(sites) == 1, "A", "C05|A|uses-walker", cfg.where(rtf), "resolve_types must hand its callback to traverse::walk_types_mut")
     resolve_type_rules(ctx, rep)
     builtin_tables(ctx, rep)
-    rep.not_decided += ["matching semantics of names: 'equals the written name or ends with .name', near misses (XFoo vs Foo, other.pkg.Foo vs pkg.Foo) - facts about ==, ends_with and format! on arbitrary strings",
+    rep.rule("E", "name matching: the predicates of the two searches are extracted as boolean functions of three string tests (equal / dot-bounded suffix / contains a dot) and must be `equal or dot-suffix` for imports and `equal and not dotted` for forward declarations; predicates built from other tests are reported for reading")
+    matching_rules(ctx, rep)
+    rep.not_decided += ["correctness of the string primitives themselves (==, ends_with, contains, format!) and predicates written with other primitives (reported, not decided)",
                         "which of several imports with the same simple name wins (C11 decides that the choice is deterministic)",
                         "qualified names of built-ins other than ParcelFileDescriptor (not stated)"]
     rep.assumptions += ["TB-1 rustc MIR", "TB-4 tabulator", "TB-3 HashMap/HashSet/Iterator semantics: the searches over imports / forward declarations are oracles whose predicates are not analysed"]
